@@ -45,7 +45,11 @@ MANIFEST = {
             "rig ends the comparison of that trace there (counted) and relies on the identity-based implementation oracle. Timing "
             "theorems are stated for base-operation sequences (not lifted over install/uninstall/tickDb steps). Game layer: "
             "PrimaiteGymEnv episodes on shipped and generated scenarios are checked by the identity-based oracle, not by the model. "
-            "revealed_to_red, red_scan_countdown and _scanned_this_step are inventoried but not modelled (not C14 observables).",
+            "The node's reveal-to-red countdown (top-level `scan` request) is modelled because it shares a block of the timestep with "
+            "the whole-node scan: C14_red_scan_independent - whatever stands on it, every operation leaves all health state as it "
+            "would otherwise (so both scans completing in one timestep cannot lose the fan-out); rig family `simultaneous`: every "
+            "ordered pair of timed processes completing one timestep apart / together. revealed_to_red, the folders' "
+            "red_scan_countdown and _scanned_this_step are inventoried but not modelled (not C14 observables).",
     "technique": "Lean 4 theorems over an executable health model; model tied by regenerated tables and a differential rig",
     "design_ref": "5/C14",
 }
@@ -67,7 +71,7 @@ def _tokens(line: str) -> List[Tuple[str, str]]:
         s, f = rest.split(" F=", 1)
     except ValueError:
         return out + [("dump", dump)]
-    for name, tok in zip(("power", "startCd", "shutCd", "resetting", "node-scanCd"), p[2:].split(",")):
+    for name, tok in zip(("power", "startCd", "shutCd", "resetting", "node-scanCd", "node-redScanCd"), p[2:].split(",")):
         out.append((name, tok))
     for item in s.split():
         parts = item.split(":")
@@ -219,7 +223,7 @@ def run(ctx: Ctx):
     for k, c in enumerate(rig.exhaustive_cases(depth)):
         cases.append((f"exh{depth}:{k}", c))
     sdepth = ctx.scale(3, 5)
-    for k, c in enumerate(rig.exhaustive_cases(sdepth, durs=ctx.scale((0, 1, 2, 3), (0, 2)), small=True)):
+    for k, c in enumerate(rig.exhaustive_cases(sdepth, durs=ctx.scale((0, 1, 2), (0, 2)), small=True)):
         cases.append((f"exh{sdepth}s:{k}", c))
     # seeded random
     rng = ctx.rng.fork("health")
@@ -234,6 +238,10 @@ def run(ctx: Ctx):
     # every timed process x every lifecycle / power disturbance x every offset (enumerated)
     for k, c in enumerate(rig.lifecycle_timer_cases(durs=ctx.scale((1, 2, 3), (0, 1, 2, 3, 5)))):
         cases.append((f"lct:{k}", c))
+    # every ordered pair of timed processes of one node completing one timestep apart / in the same timestep (enumerated)
+    for k, c in enumerate(rig.simultaneous_cases(durs_a=ctx.scale((1, 2, 3), (1, 2, 3, 4)), durs_b=ctx.scale((1, 2), (1, 2, 3)))):
+        cases.append((f"sim:{k}", c))
+        ctx.count(f"simultaneous:delta={c['delta']}")
     # the fix of a database service whose completion restores the backup inside a timestep (enumerated)
     for k, c in enumerate(rig.db_fix_cases(durs=ctx.scale((0, 1, 3), (0, 1, 2, 3, 5)))):
         cases.append((f"dbfix:{k}", c))
